@@ -2,10 +2,10 @@
     schema-IR TL1 codec it builds on (ExtrOcamlBasic only, no Extract Constant). *)
 From Coq Require Extraction ExtrOcamlBasic.
 From Coq Require Import NArith ZArith.
-From TLV Require Tl1.Tl1Model Reg.RegModel Reg.RegAccModel.
+From TLV Require Tl1.Tl1Model Reg.RegModel Reg.RegAccModel Reg.RegBytesModel.
 Extraction Blacklist String List Nat Int.
 Separate Extraction
   BinNat.N.add BinNat.N.mul BinNat.N.div_eucl BinNat.N.eqb BinNat.N.ltb BinNat.N.of_nat BinNat.N.to_nat
   BinInt.Z.add BinInt.Z.mul BinInt.Z.opp BinInt.Z.of_N BinInt.Z.to_N BinInt.Z.ltb
   BinNat.N.testbit
-  TLV.Tl1.Tl1Model TLV.Reg.RegModel TLV.Reg.RegAccModel.
+  TLV.Tl1.Tl1Model TLV.Reg.RegModel TLV.Reg.RegAccModel TLV.Reg.RegBytesModel.
